@@ -3,6 +3,7 @@ package c10
 
 import (
 	"fmt"
+	"os"
 	"sort"
 	"strings"
 	"sync"
@@ -37,7 +38,7 @@ type gotTicket struct {
 	k types.EncryptionKey
 }
 
-const maxTGSPerCall = 12 // referral chains are followed up to a fixed bound (observed maximum recorded in evidence)
+const maxTGSPerCall = 16 // two chains (cross-realm TGT acquisition, then the service ticket) of at most 7 requests each, plus a renewal; the observed maximum is recorded in the evidence
 
 var maxObserved struct {
 	sync.Mutex
@@ -129,6 +130,8 @@ func Eval(c Case) evid.Verdict {
 				}
 			case "ticket", "cached":
 				spn := c.Spec.SPN(op.SPN)
+				w.W.TGSLimit = 40 // the KDCs break an endless referral chase so that it can be judged
+				w.W.TGSCount.Store(0)
 				before := time.Now()
 				tgs0, iss0 := countTGS(), issuedFor(spn)
 				type res struct {
@@ -228,6 +231,9 @@ func Eval(c Case) evid.Verdict {
 				destroyed = true
 				tr("destroy")
 			}
+		}
+		if os.Getenv("VERIF_TRACE") != "" {
+			fmt.Println(ctx())
 		}
 		// I4: everything the KDCs received
 		for _, p := range w.RequestProblems() {
